@@ -103,12 +103,12 @@ def run(R, pid):
         R.proof_problems.append("coq build of family Names (dependency) failed")
     R.prove("Packet")
     if not R.quick:
-        R.coqchk("Packet", ["Packet.Roundtrip", "Packet.SigProofs"])
+        R.coqchk("Packet", ["Packet.Roundtrip", "Packet.Walker", "Packet.SigProofs"])
     b = build(R)
     if b is None:
         return R.finish()
     exe, h = b
-    n = 110 if R.quick else 6000
+    n = 240 if R.quick else 8000
     corpus = [os.path.join(vlib.VERIF, "corpus", "C03"), os.path.join(vlib.VERIF, "corpus", "C12")]
     trace, out = run_harness(R, h, n, R.seed, corpus)
     if trace is None:
@@ -155,6 +155,26 @@ def run(R, pid):
                           "non-trivial = a line whose implementation result is a successfully built or decoded packet; distinct by SHA-1 of the line")
     samples = [l[:300] for l in lines if l.startswith(("MKDATA", "MKINT"))][:3] + [l[:300] for l in lines if l.startswith("RD ") and " W " in l][:2]
     R.add_cases(len([l for l in lines if l and not l.startswith("#")]), len(distinct), samples)
+    # live signer facts (SigInfo()/EstimateSize() called in the harness) against the translated table
+    if pid == "C12":
+        live = {}
+        for l in lines:
+            if l.startswith("SFACT "):
+                f = l.split()
+                live[f[1]] = f[2:]
+        facts = {x["name"]: x for x in (R.coverage.get("translated", {}).get("signers") or [])}
+        tmap = sgx.consts(vlib.REPO) if "sgx" in dir() else {}
+        for name, x in facts.items():
+            lv = live.get(name)
+            if lv is None or lv[0] == "err":
+                R.proof_problems.append("signer %s: no live SigInfo() observation to cross-check the translated facts" % name); continue
+            if int(lv[0]) != tmap.get(x["type"], None):
+                R.oracle_failure("signer-facts:%s" % name, "translated signature type of %s (%s) differs from what SigInfo() returns (%s)" % (name, x["type"], lv[0]),
+                                 dict(signer=name, translated=x, live=lv))
+            if x["est"] is not None and int(lv[1]) != x["est"]:
+                R.oracle_failure("signer-facts:%s" % name, "translated EstimateSize of %s (%s) differs from the live value %s" % (name, x["est"], lv[1]),
+                                 dict(signer=name, translated=x, live=lv))
+        R.coverage["signer_facts_crosschecked"] = sorted(live.keys())
     mine_spec = C03_KINDS if pid == "C03" else C12_KINDS
     mine_div = C03_DIV if pid == "C03" else C12_DIV
     seen = set()
